@@ -160,12 +160,26 @@ func c02R1R4(c *Ctx) {
 			c.LostAnchor(R1, FnName(T0)+": the slice dispatched with syncutil.Go")
 			continue
 		}
+		// pushes the traversal function makes outside that helper are ordered by
+		// the helper's summary: "a nil return implies all successors were waited for"
+		var outerPushes, bodyCalls []ssa.CallInstruction
 		if T != T0 {
+			for _, call := range Calls(T0, func(string) bool { return true }) {
+				if _, isDefer := call.(*ssa.Defer); isDefer {
+					continue
+				}
+				if g, _ := c02CalleeOf(call); g == T {
+					bodyCalls = append(bodyCalls, call)
+				}
+			}
 			bad := false
 			for _, p := range c02Pushes(T0, nil) {
 				if g, _ := c02CalleeOf(p); g == nil || c02DispatchBody(g, 1) != T {
-					c.Undecided(R1, FnName(T0)+"|push:"+CalleeName(p), p.Pos(), "the traversal function pushes outside the helper ("+FnName(T)+") that dispatches and waits for the successors; their order cannot be decided")
-					bad = true
+					outerPushes = append(outerPushes, p)
+					if len(bodyCalls) == 0 {
+						c.Undecided(R1, FnName(T0)+"|push:"+CalleeName(p), p.Pos(), "the traversal function pushes outside the helper ("+FnName(T)+") that dispatches and waits for the successors, and does not call that helper directly; their order cannot be decided")
+						bad = true
+					}
 				}
 			}
 			if bad {
@@ -181,7 +195,7 @@ func c02R1R4(c *Ctx) {
 			}
 		}
 		pushes := c02Pushes(T, except)
-		if len(pushes) == 0 {
+		if len(pushes) == 0 && len(outerPushes) == 0 {
 			c.LostAnchor(R1, tn+": no push effect found")
 			continue
 		}
@@ -204,6 +218,27 @@ func c02R1R4(c *Ctx) {
 				if st.Err != nil {
 					okErrs[st.Err] = true
 				}
+			}
+			if len(outerPushes) > 0 {
+				okSum := len(sites) > 0
+				if ErrResultIndex(T.Signature) >= 0 {
+					for _, a := range c02NilableAtoms(T) {
+						if !AtomMustPass(a, cutR1) {
+							if must, _ := c02MustPassPS(T, a.Ret, cutR1, okErrs); !must {
+								okSum = false
+							}
+						}
+					}
+				} else {
+					for _, r := range Returns(T) {
+						if !MustPass(r, cutR1) {
+							okSum = false
+						}
+					}
+				}
+				c.Check(R1, tn+"|nil-return-implies-all-waited", T.Pos(), okSum,
+					ifelse(okSum, "every nil-error return of the helper has no successors or has completed the wait for all of them",
+						"the helper that dispatches the successors can return nil before every successor was waited for"))
 			}
 			for _, p := range pushes {
 				if isSite[p.(ssa.Instruction)] {
@@ -231,6 +266,29 @@ func c02R1R4(c *Ctx) {
 		for _, g := range CallsTo(T, nGo) {
 			r := c02ErrFlow(g, ErrFlowOpts{}, 0)
 			c.Check(R1, tn+"|dispatch-error-returned", g.Pos(), r.OK, r.How+r.Detail)
+		}
+		// the traversal function's own pushes lie behind a successful return of the helper
+		if len(outerPushes) > 0 {
+			ct := newCut()
+			okErrs := map[ssa.Value]bool{}
+			for _, bc := range bodyCalls {
+				if e := ErrOf(bc); e != nil {
+					ne, _, _ := NilTests(T0, c02MustAliases(e))
+					ct.Edges(ne...)
+					okErrs[e] = true
+				} else if ErrResultIndex(T.Signature) < 0 {
+					ct.Instr(bc.(ssa.Instruction))
+				}
+			}
+			for _, p := range outerPushes {
+				ok := MustPass(p.(ssa.Instruction), ct)
+				if !ok {
+					ok, _ = c02MustPassPS(T0, p.(ssa.Instruction), ct, okErrs)
+				}
+				c.Check(R1, FnName(T0)+"|push:"+CalleeName(p), p.Pos(), ok,
+					ifelse(ok, "every path to the push takes the success edge of "+tn+", which returns nil only without successors or after waiting for all of them",
+						"a path reaches this push effect without a successful return of "+tn+" (which dispatches and waits for the node's successors)"))
+			}
 		}
 	}
 	// R4(b): the task functions handed to syncutil.Go start with the permit
